@@ -280,6 +280,8 @@ var liar = &core.Check{Name: "c07/liar", Quick: 15000, Thorough: 1500000, Hang: 
 		lie = 24
 	} else if c.Intn("wide", 25) == 0 {
 		lie = 25
+	} else if c.Intn("shortpruned", 20) == 0 {
+		lie = 26
 	}
 	c.Note("lie", lie)
 	cellIdx := func() int { return c.Choose("cell", len(r.CellList)) }
@@ -405,6 +407,35 @@ var liar = &core.Check{Name: "c07/liar", Quick: 15000, Thorough: 1500000, Hang: 
 		}
 		r.TotSize = uint64(len(r.Body()))
 		r.Trailing = c.Content("trail25", c.Intn("ntrail25", 64))
+	case 26: // a pruned branch of 1..3 levels that is 0..8 bytes short of what its mask requires, under a parent
+		// that stands at the same level (ordinary) or one below (Merkle proof), so that the parent asks for the
+		// stored depths and hashes of every level
+		mask := byte(c.OneOf("mask26", 1, 2, 3, 4, 5, 6, 7))
+		nlev := 0
+		for m := mask; m != 0; m >>= 1 {
+			nlev += int(m & 1)
+		}
+		need := 2 + nlev*(32+2)
+		short := c.Intn("short26", 9)
+		if c.Intn("veryshort26", 6) == 0 {
+			short = c.Intn("short26b", need+1)
+		}
+		pd := append([]byte{1, mask}, c.Content("pruned26", need-2)...)
+		if short > len(pd) {
+			short = len(pd)
+		}
+		pd = pd[:len(pd)-short]
+		pruned := ref.RawCell{D1: 8 | mask<<5, D2: byte(2 * len(pd)), Data: pd}
+		var parent ref.RawCell
+		if c.Bool("merkle26") {
+			md := append([]byte{3}, c.Content("merkle26d", 34)...)
+			parent = ref.RawCell{D1: 1 | 8 | (mask>>1)<<5, D2: byte(2 * len(md)), Data: md, Refs: []uint64{1}}
+		} else {
+			parent = ref.RawCell{D1: 1 | mask<<5, D2: 2, Data: []byte{0x5a}, Refs: []uint64{1}}
+		}
+		r = &ref.RawBoc{Magic: []byte{0xb5, 0xee, 0x9c, 0x72}, SizeByte: 1, OffBytes: 2, Cells: 2, Roots: 1, RootList: []uint64{0},
+			CellList: []ref.RawCell{parent, pruned}}
+		r.TotSize = uint64(len(r.Body()))
 	case 22, 23: // not a lie but a hostile shape: a long chain (deeper than the 1024 limit) or a wide sharing ladder
 		n := c.OneOf("chain", 300, 1023, 1024, 1025, 1026, 2500, 4000)
 		ladder := lie == 23
